@@ -370,6 +370,43 @@ def norm(reply):
     return BYTES_RE.sub(lambda m: "[" + ",".join(str(b) for b in bytes.fromhex(m.group(1))) + "]", reply)
 
 
+def canon_tree(j):
+    """serde tree up to what C16 cares about: struct nodes are multisets of field values (names and
+    order ignored), enum variants keep their name, `Some` is transparent, strings are byte lists"""
+    if j is None:
+        return "null"
+    if isinstance(j, bool):
+        return "1" if j else "0"
+    if isinstance(j, int):
+        return str(j if j >= 0 else j + (1 << 64))     # i64 payloads travel as bit patterns
+    if isinstance(j, float):
+        return repr(j)
+    if isinstance(j, str):
+        if j in ("Empty", "Zero"):
+            return j
+        return "[" + ",".join(str(b) for b in j.encode()) + "]"
+    if isinstance(j, list):
+        return "[" + ",".join(canon_tree(x) for x in j) + "]"
+    if isinstance(j, dict):
+        if len(j) == 1:
+            (k, v), = j.items()
+            if k == "Some":
+                return canon_tree(v)
+            if k[:1].isupper():
+                return k + "(" + canon_tree(v) + ")"
+        return "{" + ",".join(sorted(canon_tree(v) for v in j.values())) + "}"
+    raise ValueError(j)
+
+
+def tree_of(reply):
+    if not reply.startswith("tree "):
+        return reply
+    try:
+        return "tree " + canon_tree(json.loads(reply[5:]))
+    except Exception as e:
+        return reply
+
+
 def model_agrees(line, impl, model):
     """does the model's reply agree with the implementation's on what this line compares"""
     mode = line.cmp
@@ -385,6 +422,8 @@ def model_agrees(line, impl, model):
         if status_of(impl) == "idx":
             return flatten_idx(impl[4:]) == flatten_idx(model[4:])
         return True
+    if mode == "tree":
+        return tree_of(impl) == tree_of(model)
     if mode == "heap":
         a, b = parse_pairs(impl), parse_pairs(model)
         if a is None or b is None:
